@@ -105,7 +105,20 @@ def decode_cases(draw, tier):
     top = 99 if ftype == 'LLVAR' else 999
     n = draw(st.one_of(st.sampled_from([10, 11, 12, 13, 15, 16, 19, 20, 21, 40, top]), uniform(10, 40)))
     pan = draw(st.one_of(st.text(alphabet='0123456789', min_size=n, max_size=n),
+                         st.text(alphabet='0123456789', min_size=n, max_size=n),
                          st.sampled_from(['1', '9', '0']).map(lambda d: d * n)))
+    shape = draw(st.sampled_from(['digits', 'digits', 'digits', 'track2', 'mixed']))
+    if shape == 'track2' and n + 5 <= top:
+        # what else ends up in an element configured for masking: card number, separator, expiry date, the rest
+        k = draw(uniform(12, 19))
+        sep = draw(st.sampled_from([c for c in '=D^' if c in rep] or ['0']))
+        tail = draw(st.text(alphabet='0123456789', min_size=4, max_size=max(4, min(20, top - k - 1))))
+        pan = (pan * 2)[:k] + sep + tail
+    elif shape == 'mixed':
+        extra = ''.join(c for c in '=D^ -/AF' if c in rep)
+        pan = draw(st.text(alphabet='0123456789' + extra, min_size=n, max_size=n))
+        if not pan.strip(' '):
+            pan = '4' + pan[1:]
     config = {str(bit): {'field_type': ftype, 'field_length': draw(st.sampled_from([0, 0, 19])), 'field_processor': proc}}
     pt = draw(st.sampled_from([None, None, 'string', 'string']))
     if pt:
@@ -164,7 +177,7 @@ def hyp_decode(ctx, n):
         config, codec, hexbm, msg, bit, proc, blocked = v
         pan = msg['DE%d' % bit]
         ctx.case(key=harness.digest((config, codec, hexbm, msg, blocked)), nontrivial=len(pan) not in (12, 16) or bit != 2,
-                 labels=['decode', 'proc:' + proc, 'bit=2' if bit == 2 else 'bit!=2', 'pan>19' if len(pan) > 19 else 'pan<=19',
+                 labels=['decode', 'proc:' + proc, 'value:digits' if pan.isdigit() else 'value:with-other-characters', 'bit=2' if bit == 2 else 'bit!=2', 'pan>19' if len(pan) > 19 else 'pan<=19',
                          'family:' + codecs_.family(codec)])
         if len(ctx.samples) < 5:
             ctx.sample({'config': gen_iso.describe(config), 'codec': codec, 'message': msg, 'via': ['loads', 'IpmReader']})
